@@ -8,3 +8,19 @@ def implies(a, b):
 
 def iff(a, b):
     return (a and b) or ((not a) and (not b))
+
+
+# ---- bounded quantifiers over index ranges.  Natively these are any()/all(); in proofs the
+# engine turns them into z3 quantifiers (pyvc.models.q_forall / q_exists).
+
+def forall_range(lo, hi, pred):
+    return all(pred(j) for j in range(lo, hi))
+
+
+def exists_range(lo, hi, pred):
+    return any(pred(j) for j in range(lo, hi))
+
+
+def is_opaque(x):
+    """True for objects that exist only through an interface contract (never for real instances)."""
+    return type(x).__name__.startswith('Stub_')
